@@ -166,6 +166,14 @@ def install_more(I):
         if s == o: return
         ln = s_len(o); s_reserve(s, ln); I.memcpy(s_ptr(s), s_ptr(o), ln); s_setlen(s, ln)
     M[S + '9_M_assignERKS4_'] = assign
+    def swap(I_, a, b):
+        if a == b: return
+        la, lb = s_len(a), s_len(b)
+        ta = I.new_obj(max(la, 1), 'tmp', 'heap'); I.memcpy(ta, s_ptr(a), la)
+        tb = I.new_obj(max(lb, 1), 'tmp', 'heap'); I.memcpy(tb, s_ptr(b), lb)
+        replace(I_, a, 0, la, tb, lb); replace(I_, b, 0, lb, ta, la)
+        I.objs[ta >> OBJ_SHIFT].alive = False; I.objs[tb >> OBJ_SHIFT].alive = False
+    M[S + '4swapERS4_'] = swap
     def find_first_of(I_, s, set_, pos, n):
         pos = I.concretize(pos, 'pos'); n = I.concretize(n, 'n'); ln = s_len(s); p = s_ptr(s)
         for k in range(pos, ln):
@@ -174,7 +182,7 @@ def install_more(I):
                 if I.decide(I.icmp('eq', 8, b, I.load(set_ + j, i8)), 'find_first_of'): return k
         return mask(64)
     M['_ZNKSt7__cxx1112basic_stringIcSt11char_traitsIcESaIcEE13find_first_ofEPKcmm'] = find_first_of
-    for n in ('_ZNSt12out_of_rangeC1EPKc', '_ZNSt12out_of_rangeD1Ev', '_ZNSt13runtime_errorC1EPKc', '_ZNSt13runtime_errorD1Ev', '_ZNSt9exceptionD2Ev',
+    for n in ('_ZNSt11range_errorC2EPKc', '_ZNSt11range_errorC1EPKc', '_ZNSt11range_errorD1Ev', '_ZNSt12out_of_rangeC1EPKc', '_ZNSt12out_of_rangeD1Ev', '_ZNSt13runtime_errorC1EPKc', '_ZNSt13runtime_errorD1Ev', '_ZNSt9exceptionD2Ev',
               '_ZNSt11logic_errorC2ERKNSt7__cxx1112basic_stringIcSt11char_traitsIcESaIcEEE'):
         M[n] = lambda I_, *a: None
 
